@@ -40,7 +40,7 @@ func exec(line string) zv.Out {
 		return execAsn1(line)
 	case "tpc", "tu":
 		return execTime(f)
-	case "xsch", "xpk", "xgn", "xpc":
+	case "xsch", "xpk", "xpa", "xgn", "xpc", "xsub":
 		return execX(f)
 	}
 	return zv.Out{Go: "bad-op"}
